@@ -1,0 +1,41 @@
+//go:build verif
+
+package parquet
+
+import (
+	"bytes"
+
+	"github.com/parsyl/parquet/internal/bitpack"
+	"github.com/parsyl/parquet/internal/rle"
+)
+
+// Verification hooks (build tag "verif" only): thin wrappers that make the
+// internal bit-packing and RLE packages reachable from outside the module.
+// They add no behaviour.
+
+// VerifPack calls bitpack.Pack on an empty destination.
+func VerifPack(width int, vals []uint8) []byte {
+	return bitpack.Pack(make([]byte, 0, bitpack.MaxSize), width, vals)
+}
+
+// VerifUnpack calls bitpack.Unpack.
+func VerifUnpack(width int, data []byte) []uint8 {
+	return bitpack.Unpack(width, data)
+}
+
+// VerifRLEEncode runs the level encoder exactly as writeLevels does.
+func VerifRLEEncode(width int32, levels []uint8) []byte {
+	enc, _ := rle.New(width, len(levels))
+	for _, l := range levels {
+		enc.Write(l)
+	}
+	return enc.Bytes()
+}
+
+// VerifRLEDecode runs the level decoder exactly as readLevels does and also
+// reports how many bytes of the input were left unread.
+func VerifRLEDecode(width int32, data []byte) (out []uint8, n int, rest int, err error) {
+	in := bytes.NewBuffer(data)
+	out, n, err = readLevels(in, width)
+	return out, n, in.Len(), err
+}
